@@ -3,11 +3,15 @@
 Monitor: the real model objects (UNIFAC, Dortmund, NIST, ideal) are called on random compositions; the oracle checks
 vertex normalisation, the Gibbs-Duhem residual by central differences, permutation equivariance, the treatment of
 chemicals without groups, bit-identity of the caller's composition array and agreement of the functional form.
+The values themselves are compared with an independent implementation of the published models (thermo.unifac with its own
+parameter tables), so that a thermodynamically consistent but wrong model (temperature dependence, transposed interaction
+table, wrong coordination number / exponent / Q-R column, wrong table wired to a class) is not admitted.
 """
 import itertools
 import numpy as np
 import thermosteam as tmo
 from thermosteam import equilibrium as eq
+from thermo import unifac as _tu            # independent implementation + its own parameter tables (thermosteam ships private copies of both)
 from vt.core import case_hash
 
 PID = 'C16'
@@ -16,23 +20,96 @@ RULE = ('sets of 2-6 of 13 chemicals with functional groups (+ N2 / CO2 without)
         'every permutation of the set for n<=4 (6 random ones otherwise). Added: faces of the simplex (exact zeros on group-bearing members), sets with 0/1 group-bearing member + inert ones (ideal fallback), '
         'Gibbs-Duhem with relative steps (trace / near-vertex / face compositions) and with the inert members moving, caller array kinds (list, int array, non-contiguous view) for the model object and the '
         'functional form, activity_coefficients() on the sub-composition, re-evaluation after an intervening call at another (x, T) and with args captured earlier (bit identity), ideal fugacity / Poynting '
-        'models (with a Psats array) in every case. non-trivial = >=2 chemicals with groups and a non-ideal value (|gamma-1|>1e-6) observed; distinct = hash of the case')
+        'models (with a Psats array) in every case. Value reference: every evaluated (x, T) of the three group models (first state, second state, activity_coefficients()) against '
+        'thermo.unifac.UNIFAC.from_subgroups with thermo\'s own tables on the renormalised sub-composition of the group-bearing members (1e-12 relative); Gibbs-Duhem also with Richardson '
+        'extrapolation (steps eps, eps/2) bounded by the rounding of the difference quotient; Gibbs-Duhem cases whose largest term is below the resolution are counted as gd:unresolved:*, not as held. '
+        'non-trivial = >=2 chemicals with groups and a non-ideal value (|gamma-1|>1e-6) observed; distinct = hash of the case')
 MIN_NONTRIVIAL = {'quick': 300, 'thorough': 10000}
-ASSUMPTIONS = ['Gibbs-Duhem is evaluated by central differences with step 1e-3*min(x) along zero-sum directions; bound 1e-4 of the largest term + 1e-7 (nearly ideal mixtures have terms of 1e-7 and finite-difference noise of a few 1e-9)',
-               'NIST groups exist only for the chemicals whose names resolve in the bundled NIST subgroup table']
+ASSUMPTIONS = ['Gibbs-Duhem is evaluated by central differences with step 1e-3*min(x) along zero-sum directions; bound 1e-4 of the largest term + 1e-7 (nearly ideal mixtures have terms of 1e-7 and finite-difference noise of a few 1e-9); '
+               'the Richardson combination (4 S(eps/2) - S(eps))/3 removes the eps^2 truncation term (which alone reaches 8e-6 of the largest term) and is bounded by 1e-7 of the largest term + 1000*2.2e-16/eps '
+               '(observed worst 20*2.2e-16/eps: pure rounding of the quotient); a case is called resolved when that floor is below 1 % of its largest term',
+               'the models named UNIFAC / Dortmund / NIST are the published ones: the values are compared with the implementation and the parameter tables of the external package thermo (version 0, version 1, '
+               'version 1 with NISTUFSG/NISTUFIP), which the harness pins to three literal values (water/ethanol) when it is imported; members without groups are left out and the rest renormalised (documented behaviour)',
+               'vertex normalisation, permutation equivariance and the value reference are bounded by 1e-12 relative (observed worst over 60000 cases 2.9e-15 / 1.1e-14 / 1.1e-14: rounding of the group sums in another order)',
+               'NIST groups are assigned by name; the six names used are looked up in thermo\'s NIST table to obtain the subgroup ids the reference uses (a KeyError of the library for a name that table does not hold would be a refusal; any other failure is a violation)']
 WITH = ('Water', 'Ethanol', 'Methanol', 'Propanol', 'Butanol', 'Hexane', 'Heptane', 'Octane', 'Benzene', 'Toluene', 'Acetone', 'EthylAcetate', 'AceticAcid')
 WITHOUT = ('N2', 'CO2')
 NIST_GROUPS = {'Water': {'H2O': 1}, 'Ethanol': {'CH3': 1, 'CH2': 1, 'OH prim': 1}, 'Propanol': {'CH3': 1, 'CH2': 2, 'OH prim': 1}, 'Butanol': {'CH3': 1, 'CH2': 3, 'OH prim': 1},
                'Hexane': {'CH3': 2, 'CH2': 4}, 'Heptane': {'CH3': 2, 'CH2': 5}, 'Octane': {'CH3': 2, 'CH2': 6}, 'Methanol': {'CH3OH': 1}, 'Acetone': {'CH3': 1, 'CH3CO': 1}}
 CLASSES = {'UNIFAC': 'UNIFACActivityCoefficients', 'Dortmund': 'DortmundActivityCoefficients', 'NIST': 'NISTActivityCoefficients', 'Ideal': 'IdealActivityCoefficients'}
+GROUP_CLASSES = ('UNIFAC', 'Dortmund', 'NIST')
+VALUE_RTOL = 1e-12          # observed worst difference to the reference 1.1e-14 over 60000 cases (all kinds, present and absent members)
+U = 2.2e-16
 
 _chems = {}
 _nist = {}
 
+# ---- independent value reference -----------------------------------------------------------------------------------------------------------------
+if hasattr(_tu, 'load_unifac_ip'): _tu.load_unifac_ip()
+REF = {'UNIFAC': dict(version=0, interaction_data=_tu.UFIP, subgroups=_tu.UFSG),
+       'Dortmund': dict(version=1, interaction_data=_tu.DOUFIP2016, subgroups=_tu.DOUFSG),
+       'NIST': dict(version=1, interaction_data=_tu.NISTUFIP, subgroups=_tu.NISTUFSG)}          # NIST-modified UNIFAC (Kang et al. 2015): the Dortmund equations with its own groups and parameters
+_NIST_ID = {sg.group: k for k, sg in _tu.NISTUFSG.items()}
+
+
+def lnq(gp, gm, step):
+    """(ln gp - ln gm)/step in the harness's own arithmetic: a zero, negative or nan coefficient gives nan (judged: a nan sum is over every bound), never a FloatingPointError of the harness."""
+    with np.errstate(all='ignore'):
+        return (np.log(gp) - np.log(gm)) / step
+
+
+def within(a, b, rtol):
+    """all |a - b| <= rtol |b| (nan / inf on either side: False)."""
+    a = np.asarray(a, float); b = np.asarray(b, float)
+    if a.shape != b.shape: return False
+    with np.errstate(all='ignore'):
+        return bool(np.all(np.isfinite(a)) and np.all(np.isfinite(b)) and np.all(np.abs(a - b) <= rtol * np.abs(b)))
+
+
+def relmax(a, b):
+    """largest |a/b - 1| (recorded residual only); None when it cannot be formed."""
+    try:
+        with np.errstate(all='ignore'):
+            v = float(np.max(np.abs(np.asarray(a, float) / np.asarray(b, float) - 1.0)))
+        return v if v == v else None
+    except Exception:
+        return None
+
+
+def ref_gammas(cls, groups, xs, T):
+    """activity coefficients of the published model, computed by thermo from {subgroup id: count} dicts."""
+    return np.array(_tu.UNIFAC.from_subgroups(T=float(T), xs=[float(v) for v in xs], chemgroups=groups, **REF[cls]).gammas(), float)
+
+
+def _pin_reference():
+    # the reference itself is pinned to literal values (ethanol/water; the Dortmund and NIST ones are the values printed in the class documentation, the UNIFAC one is the recorded repaired value)
+    eth, wat = {1: 1, 2: 1, 14: 1}, {16: 1}
+    for cls, groups, xs, want in (('UNIFAC', [eth, wat], [0.3, 0.7], [1.6646371246270681, 1.222781811499355]),
+                                  ('Dortmund', [wat, eth], [0.5, 0.5], [1.4749922296583007, 1.2418240954542252]),
+                                  ('NIST', [wat, eth], [0.5, 0.5], [1.4794334959559001, 1.2379032263253202])):
+        got = ref_gammas(cls, groups, xs, 350.)
+        if not np.allclose(got, want, rtol=1e-12, atol=0): raise RuntimeError(f'harness: the thermo reference for {cls} gives {got.tolist()}, pinned {want}')
+
+
+_pin_reference()
+
+
+def groups_of(cls, i, c):
+    """{subgroup id: count} of one chemical for the reference; None when the chemical has no assignment. NIST: from the harness's own names through thermo's table."""
+    if cls == 'NIST':
+        if i not in NIST_GROUPS: return None
+        return {_NIST_ID[k]: v for k, v in NIST_GROUPS[i].items()}
+    g = getattr(c, cls)
+    return {int(k): int(v) for k, v in g.items()} if g else None
+
 
 def required(tier):
     return ['vertex', 'gibbs-duhem', 'permutation', 'no-groups', 'x-unchanged', 'functional-form', 'ideal-models', 'model:UNIFAC', 'model:Dortmund', 'model:NIST',
-            'kind:face', 'kind:few-groups', 'gd:relative-step', 'gd:inert-moving', 'caller:list', 'caller:view', 'caller:int', 'caller:f-view', 'repeatable', 'sub-model-method', 'ideal:every-case']
+            'kind:face', 'kind:few-groups', 'gd:relative-step', 'gd:inert-moving', 'caller:list', 'caller:view', 'caller:int', 'caller:f-view', 'repeatable', 'sub-model-method', 'ideal:every-case',
+            'value-reference', 'value-reference:UNIFAC', 'value-reference:Dortmund', 'value-reference:NIST', 'value-reference:second-state', 'value-reference:absent-member', 'value-reference:single-group-member',
+            'sub-model-method:UNIFAC', 'sub-model-method:Dortmund', 'sub-model-method:NIST',
+            'gd:richardson', 'gd:resolved:interior', 'gd:resolved:relative-step/interior', 'gd:resolved:relative-step/face', 'gd:resolved:relative-step/trace', 'gd:resolved:inert-moving',
+            'ambient:activity_coefficients.gamma_modified_UNIFAC']
 
 
 def chem(i):
@@ -47,16 +124,24 @@ def nist_chem(i):
         c = tmo.Chemical(i, cache=False)
         try:
             c.NIST.set_group_counts_by_name(NIST_GROUPS[i])
-        except Exception:
-            c = False
+        except Exception as e:
+            c = NistFailure(i, e)
         _nist[i] = c
     return c
+
+
+class NistFailure:
+    """set_group_counts_by_name raised: a refusal only for a KeyError on a name that the independent NIST table does not hold either (none of the six names used)."""
+    def __init__(self, i, e):
+        self.ID = i; self.exc = e
+        self.warranted = isinstance(e, KeyError) and any(k not in _NIST_ID for k in NIST_GROUPS[i])
 
 
 def model(cls, ids):
     if cls == 'NIST':
         cs = [nist_chem(i) if i in NIST_GROUPS else tmo.Chemical(i, cache=True) for i in ids]
-        if any(c is False for c in cs): return None, None
+        bad = [c for c in cs if isinstance(c, NistFailure)]
+        if bad: return None, bad
     else:
         cs = [chem(i) for i in ids]
     return getattr(eq, CLASSES[cls])(cs), cs
@@ -126,7 +211,11 @@ def run_case(case, rec):
         G, cs = model(cls, ids)
     except Exception as e:
         rec.exception('construct', e, what=f'{cls} model construction raised {type(e).__name__}: {e}'); return
-    if G is None: rec.refuse('NIST group names not available'); return
+    if G is None:
+        for b in cs:
+            if b.warranted: rec.refuse('NIST group names not available')
+            else: rec.exception('construct', b.exc, what=f'{b.ID}.NIST.set_group_counts_by_name({NIST_GROUPS[b.ID]}) raised {type(b.exc).__name__}: {b.exc} (every name is a subgroup of the NIST table)')
+        return
     tag = cls
     rec.hit('model:' + cls)
     x = np.array(case['x'], float)
@@ -144,6 +233,9 @@ def run_case(case, rec):
         rec.check(np.array_equal(gf, g) or (gf.ndim == 0 and np.all(g == gf)), 'functional-form', tag, f'Gamma.f(x,T,*args) = {gf.tolist()} differs from Gamma(x,T) = {g.tolist()}')
     except Exception as e:
         rec.exception('functional-form', e, what=f'{cls}.f raised {type(e).__name__}: {e}')
+    # (0) value of the published model (independent implementation and tables)
+    if cls in GROUP_CLASSES:
+        value_reference(case, rec, cls, ids, cs, n, x, T, g, case['kind'])
     extra_clauses(case, rec, G, cs, cls, ids, n, T, g)
     if cls == 'Ideal':
         rec.check(np.all(g == 1.0), 'ideal-models', 'gamma', f'ideal activity coefficients {g.tolist()}')
@@ -172,7 +264,7 @@ def run_case(case, rec):
     # (1) normalisation at the vertices
     if case['kind'] in ('vertex', 'near-vertex') or (x.max() == 1.0 and int(np.argmax(x)) < n):
         k = int(np.argmax(x))
-        rec.check(abs(g[k] - 1.0) <= 1e-9, 'vertex', tag, f'gamma of {ids[k]} at x={x[k]!r} is {g[k]!r}, not 1', residual=abs(g[k] - 1.0))
+        rec.check(abs(g[k] - 1.0) <= 1e-12, 'vertex', tag, f'gamma of {ids[k]} at x={x[k]!r} is {g[k]!r}, not 1', residual=abs(g[k] - 1.0))
     # (2) Gibbs-Duhem on interior points
     if case['kind'] == 'interior' and n >= 2:
         d = np.array(case['d'], float)
@@ -180,10 +272,11 @@ def run_case(case, rec):
         eps = 1e-3 * x[:n].min() / max(np.abs(d).max(), 1e-12)
         try:
             gp = np.asarray(G((x + eps * d).copy(), T), float); gm = np.asarray(G((x - eps * d).copy(), T), float)
-            dln = (np.log(gp) - np.log(gm)) / (2 * eps)
+            dln = lnq(gp, gm, 2 * eps)
             terms = x * dln
             res = abs(terms.sum()); scale = np.abs(terms).max()
-            rec.check(res <= 1e-4 * scale + 1e-7, 'gibbs-duhem', tag, f'sum x_i dln(gamma_i)/ds = {terms.sum()!r} with largest term {scale!r} (x={x.tolist()}, T={T})', residual=res / max(scale, 1e-300))
+            gd_judge(rec, res <= 1e-4 * scale + 1e-7, scale, 1e-7, 'gibbs-duhem', tag, 'interior', f'sum x_i dln(gamma_i)/ds = {terms.sum()!r} with largest term {scale!r} (x={x.tolist()}, T={T})', res / max(scale, 1e-300))
+            gd_richardson(rec, G, x, d, eps, T, None, terms.sum(), scale, tag, 'interior')
         except Exception as e:
             rec.exception('gibbs-duhem', e, what=f'{cls} raised {type(e).__name__} near an interior point: {e}')
     # (2b) Gibbs-Duhem with relative steps x_i -> x_i (1 +- eps (u_i - ubar)): resolves trace, near-vertex and face compositions
@@ -197,11 +290,12 @@ def run_case(case, rec):
         eps = 1e-3
         try:
             gp = np.asarray(G((x + eps * d).copy(), T), float); gm = np.asarray(G((x - eps * d).copy(), T), float)
-            dln = (np.log(gp[present]) - np.log(gm[present])) / (2 * eps)
+            dln = lnq(gp[present], gm[present], 2 * eps)
             terms = x[present] * dln
             res = abs(terms.sum()); scale = np.abs(terms).max()
-            rec.check(res <= 1e-4 * scale + 1e-7, 'gibbs-duhem', f'{tag}/relative-step/{case["kind"]}',
-                      f'sum x_i dln(gamma_i)/ds = {terms.sum()!r} with largest term {scale!r} along a relative step (x={x.tolist()}, T={T})', residual=res / max(scale, 1e-300))
+            gd_judge(rec, res <= 1e-4 * scale + 1e-7, scale, 1e-7, 'gibbs-duhem', f'{tag}/relative-step/{case["kind"]}', f'relative-step/{case["kind"]}',
+                     f'sum x_i dln(gamma_i)/ds = {terms.sum()!r} with largest term {scale!r} along a relative step (x={x.tolist()}, T={T})', res / max(scale, 1e-300))
+            gd_richardson(rec, G, x, d, eps, T, present, terms.sum(), scale, f'{tag}/relative-step/{case["kind"]}', f'relative-step/{case["kind"]}')
             rec.hit('gd:relative-step')
         except Exception as e:
             rec.exception('gibbs-duhem', e, what=f'{cls} raised {type(e).__name__} near a {case["kind"]} point: {e}')
@@ -211,11 +305,12 @@ def run_case(case, rec):
         eps = 1e-3 * x.min() / max(np.abs(d).max(), 1e-12)
         try:
             gp = np.asarray(G((x + eps * d).copy(), T), float); gm = np.asarray(G((x - eps * d).copy(), T), float)
-            dln = (np.log(gp) - np.log(gm)) / (2 * eps)
+            dln = lnq(gp, gm, 2 * eps)
             terms = x * dln
             res = abs(terms.sum()); scale = np.abs(terms).max()
-            rec.check(res <= 1e-4 * scale + 1e-7, 'gibbs-duhem', f'{tag}/inert-moving', f'sum x_i dln(gamma_i)/ds = {terms.sum()!r} with largest term {scale!r}, inert members moving (x={x.tolist()}, d={d.tolist()}, T={T})',
-                      residual=res / max(scale, 1e-300))
+            gd_judge(rec, res <= 1e-4 * scale + 1e-7, scale, 1e-7, 'gibbs-duhem', f'{tag}/inert-moving', 'inert-moving',
+                     f'sum x_i dln(gamma_i)/ds = {terms.sum()!r} with largest term {scale!r}, inert members moving (x={x.tolist()}, d={d.tolist()}, T={T})', res / max(scale, 1e-300))
+            gd_richardson(rec, G, x, d, eps, T, None, terms.sum(), scale, f'{tag}/inert-moving', 'inert-moving')
             rec.hit('gd:inert-moving')
         except Exception as e:
             rec.exception('gibbs-duhem', e, what=f'{cls} raised {type(e).__name__} near an interior point (inert members moving): {e}')
@@ -231,12 +326,65 @@ def run_case(case, rec):
         try:
             Gp, _ = model(cls, [ids[i] for i in p])
             gpv = np.asarray(Gp(x[list(p)].copy(), T), float)
-            ok = np.allclose(gpv, g[list(p)], rtol=1e-9, atol=0)
-            rec.check(ok, 'permutation', tag, f'gamma depends on the position in the chemical list: order {[ids[i] for i in p]} gives {gpv.tolist()} expected {g[list(p)].tolist()}')
+            ok = gpv.shape == g.shape and np.allclose(gpv, g[list(p)], rtol=1e-12, atol=0)          # observed worst 3.8e-15 (order of the group sums)
+            rec.check(ok, 'permutation', tag, f'gamma depends on the position in the chemical list: order {[ids[i] for i in p]} gives {gpv.tolist()} expected {g[list(p)].tolist()}',
+                      residual=relmax(gpv, g[list(p)]) if ok else None)
             if not ok: break
         except Exception as e:
             rec.exception('permutation', e, what=f'{cls} on a permuted list raised {type(e).__name__}: {e}'); break
     if np.abs(g[:n] - 1).max() > 1e-6: rec.mark_nontrivial(case_hash(case))
+
+
+def gd_judge(rec, ok, scale, floor, clause, key, label, what, residual):
+    """a Gibbs-Duhem sum over its bound is a violation; one within it counts as held only when the absolute floor of the bound is below 1 % of the largest term
+    (nearly ideal sets, trace and near-vertex compositions have terms below the rounding of the difference quotient: counted gd:unresolved:*, not held)."""
+    if not ok:
+        rec.check(False, clause, key, what); return
+    if floor <= 1e-2 * scale:
+        rec.check(True, clause, key, what, residual=residual)
+        if clause == 'gibbs-duhem-richardson': rec.hit('gd:resolved:' + label)
+    else:
+        rec.hit(('gd:unresolved:' if clause == 'gibbs-duhem-richardson' else 'gd:unresolved-plain:') + label)
+
+
+def gd_richardson(rec, G, x, d, eps, T, sel, s1, scale, key, label):
+    """second central difference with half the step; (4 S(eps/2) - S(eps))/3 has no eps^2 term: what is left is the rounding of ln(gamma) divided by eps."""
+    h = eps / 2
+    gp = np.asarray(G((x + h * d).copy(), T), float); gm = np.asarray(G((x - h * d).copy(), T), float)
+    dln = lnq(gp, gm, 2 * h)
+    s2 = float((x * dln).sum() if sel is None else (x[sel] * dln[sel]).sum())
+    R = abs((4 * s2 - s1) / 3)
+    floor = 1000 * U / eps
+    bound = 1e-7 * scale + floor
+    rec.hit('gd:richardson')
+    gd_judge(rec, R <= bound, scale, floor, 'gibbs-duhem-richardson', key, label,
+             f'Richardson-extrapolated sum x_i dln(gamma_i)/ds = {R!r} (steps {eps!r} and half of it: {s1!r}, {s2!r}) with largest term {scale!r}, bound {bound!r} (x={np.asarray(x).tolist()}, T={T})', R / bound)
+
+
+def value_reference(case, rec, cls, ids, cs, n, x, T, g, where):
+    """g = model(x, T) against the reference on the renormalised sub-composition of the n group-bearing members (the others are documented to be left out)."""
+    groups = [groups_of(cls, ids[k], cs[k]) for k in range(n)]
+    if any(gr is None for gr in groups):
+        rec.refuse(f'a member of the with-groups pool carries no {cls} group assignment (value reference not defined)'); return
+    g = np.asarray(g, float)
+    if n == 1:
+        # one member with groups among inert ones: its sub-composition is the pure chemical
+        rec.check(g.shape == (len(ids),) and abs(g[0] - 1.0) <= VALUE_RTOL, 'value-reference', f'{cls}/single-group-member', f'{ids[0]} is the only member with groups (pure sub-composition) but gamma = {g.tolist()}',
+                  residual=abs(g[0] - 1.0) if g.shape == (len(ids),) else None)
+        rec.hit('value-reference:single-group-member'); return
+    if n < 2: return
+    xs = float(x[:n].sum())
+    if not xs > 0:
+        rec.hit('value-reference:undefined/no-group-member-present'); return       # 0/0 sub-composition: the published model has no value there
+    xsub = x[:n] / xs
+    r = ref_gammas(cls, groups, xsub, T)
+    ok = g.shape == (len(ids),) and within(g[:n], r, VALUE_RTOL)
+    res = relmax(g[:n], r) if g.shape == (len(ids),) else None
+    rec.check(ok, 'value-reference', f'{cls}/{where}', f'{cls}({ids})(x={np.asarray(x).tolist()}, T={T}) = {g.tolist()} but the published model (thermo.unifac, groups {groups}) gives {r.tolist()} for the members with groups',
+              residual=res)
+    rec.hit('value-reference:' + cls)
+    if np.any(xsub == 0): rec.hit('value-reference:absent-member')
+    return r
 
 
 def extra_clauses(case, rec, G, cs, cls, ids, n, T, g):
@@ -280,7 +428,12 @@ def extra_clauses(case, rec, G, cs, cls, ids, n, T, g):
     if case.get('x2') is not None:
         try:
             args = G.args
-            G(np.array(case['x2'], float), case['T2'])
+            x2 = np.array(case['x2'], float)
+            g2nd = G(x2, case['T2'])
+            if cls in GROUP_CLASSES:
+                value_reference(case, rec, cls, ids, cs, n, np.array(case['x2'], float), case['T2'], g2nd, 'second-state')
+                rec.check(x2.tobytes() == np.array(case['x2'], float).tobytes(), 'x-unchanged', f'{tag}/second-state', f'{cls} model modified the composition array of the intervening evaluation')
+                rec.hit('value-reference:second-state')
             g3 = G(x.copy(), T)
             g4 = G.f(x.copy(), T, *args)
             rec.check(same(g3), 'repeatable', f'{tag}/after-other-state', f'Gamma(x, T) = {g.tolist()} but {np.asarray(g3).tolist()} after an intervening evaluation at x2={case["x2"]}, T2={case["T2"]}')
@@ -288,8 +441,9 @@ def extra_clauses(case, rec, G, cs, cls, ids, n, T, g):
         except Exception as e:
             rec.exception('repeatable', e, what=f'{cls} re-evaluation raised {type(e).__name__}: {str(e)[:150]}')
     # (7b) the public sub-model method (chemicals with groups only, normalised sub-composition)
-    if hasattr(G, 'activity_coefficients') and hasattr(G, '_index'):
-        idx = [int(i) for i in G._index]
+    if (cls in GROUP_CLASSES and n >= 2) or (hasattr(G, 'activity_coefficients') and hasattr(G, '_index')):
+        # n >= 2 members with groups: the class must offer the method (the harness knows which members carry groups: the first n)
+        idx = list(range(n)) if (cls in GROUP_CLASSES and n >= 2) else [int(i) for i in G._index]
         xs = x[idx]
         if xs.sum() > 0:
             xs = xs / xs.sum(); keep = xs.copy()
@@ -297,8 +451,20 @@ def extra_clauses(case, rec, G, cs, cls, ids, n, T, g):
                 ga = np.asarray(G.activity_coefficients(xs, T), float)
                 rec.check(xs.tobytes() == keep.tobytes(), 'x-unchanged', f'{tag}/activity_coefficients', f'{cls}.activity_coefficients modified the composition array passed by the caller')
                 ref = g[idx]
-                okv = all((a == b) or (a != a) or abs(a - b) <= 1e-12 * abs(b) for a, b in zip(ga, ref))      # nan (member absent from every group sum) is mapped to one by the functional form
+                # nan (member absent from every group sum) is mapped to one by the functional form: tolerated only for an absent member whose coefficient from the model object is exactly one
+                nan_ok = ga.shape == ref.shape and all((a == a) or (xs[k] == 0 and ref[k] == 1.0) for k, a in enumerate(ga))
+                rec.check(nan_ok, 'functional-form', f'{tag}/activity_coefficients/nan-for-present-member', f'{cls}.activity_coefficients(x_sub={xs.tolist()}, T) = {ga.tolist()} has nan for a member that is present (Gamma(x, T) = {ref.tolist()})')
+                okv = ga.shape == ref.shape and all((a == b) or (a != a) or abs(a - b) <= 1e-12 * abs(b) for a, b in zip(ga, ref))
                 rec.check(okv, 'functional-form', f'{tag}/activity_coefficients', f'{cls}.activity_coefficients(x_sub, T) = {ga.tolist()} differs from Gamma(x, T)[with groups] = {ref.tolist()}')
+                if cls in GROUP_CLASSES and n >= 2:
+                    groups = [groups_of(cls, ids[k], cs[k]) for k in range(n)]
+                    if all(gr is not None for gr in groups):
+                        r = ref_gammas(cls, groups, xs, T)
+                        fin = ga == ga
+                        rec.check(ga.shape == r.shape and within(ga[fin], r[fin], VALUE_RTOL), 'value-reference', f'{cls}/activity_coefficients',
+                                  f'{cls}.activity_coefficients(x_sub={xs.tolist()}, T={T}) = {ga.tolist()} but the published model (thermo.unifac) gives {r.tolist()}',
+                                  residual=relmax(ga[fin], r[fin]) if (ga.shape == r.shape and fin.any()) else None)
+                    rec.hit('sub-model-method:' + cls)
                 rec.hit('sub-model-method')
             except Exception as e:
                 rec.exception('functional-form', e, what=f'{cls}.activity_coefficients raised {type(e).__name__}: {str(e)[:150]}')
